@@ -74,6 +74,9 @@ def run(chk):
             g = [int(inv[i]) for i in f]
             k = int(rng.integers(len(g)))
             F2.append(g[k:] + g[:k])
+        # ... and the face LIST is relabelled too: face j of the transformed solid is face fperm[j] of the original
+        fperm = rng.permutation(len(F2))
+        F2 = [F2[int(i)] for i in fperm]
         chk.case(["Polyhedron", V.tolist(), L.tolist(), t.tolist()], True)
         chk.count("cls:Polyhedron")
         desc = dict(cls="Polyhedron", kind=kind, vertices=V.tolist(), faces=F, linear=L.tolist(), translation=t.tolist(), scale=s)
@@ -81,6 +84,19 @@ def run(chk):
         if st != "ok":
             chk.violation("valid-shape-became-error", dict(desc, error=st)); continue
         compare3d(chk, a, b, R, s, t, desc, rng)
+        # per-face queries follow the relabelling: face j of b is face fperm[j] of a, asked for singly, as a subset and all together
+        sta, fa_all = C.excname(lambda: np.asarray(a.get_face_area(), float))
+        if sta == "ok":
+            j1 = int(rng.integers(len(F2)))
+            sub = [int(x) for x in rng.permutation(len(F2))[: min(3, len(F2))]]
+            for sel, idx in ((j1, [j1]), (sub, sub), (None, list(range(len(F2))))):
+                stb, got = C.excname(lambda: np.asarray(b.get_face_area(sel), float).ravel())
+                want = s ** 2 * fa_all[fperm[idx]]
+                if stb != "ok" or got.shape != want.shape or not np.allclose(got, want, rtol=1e-9, atol=0):
+                    chk.violation("not-covariant:get_face_area", dict(desc, face_permutation=fperm.tolist(), asked=sel, outcome=stb,
+                                                                      after=None if stb != "ok" else got.tolist(), expected=want.tolist()))
+                    break
+            chk.count("per-face-queries-under-relabelling")
     # ------------------------------------------------------------------ axis-aligned convex polygons turned in their own plane
     # (exactly horizontal / vertical edges take special branches in distance_to_surface; the turned copy takes the generic one)
     for _ in range(max(4, n // 4)):
